@@ -618,3 +618,144 @@ Proof.
     rewrite (ack_to_transmit_view _ _ V1), Ha in H2.
     rewrite (delack_expired_view s1 s (cx_now cx) T1), He in H2. cbn [andb] in H2. inversion H2.
 Qed.
+
+(* ---------------------------------------------------------------------------------------- *)
+(* a data segment that starts at or below RCV.NXT (a retransmission): new octets are accepted   *)
+(* or an ACK of RCV.NXT goes out at once                                                      *)
+(* ---------------------------------------------------------------------------------------- *)
+Theorem process_data_below cx s ip r s' rep tags W k :
+  s_state s = Established -> rcv_wf s ->
+  tcp_window_end s = seq_norm (tcp_window_start s + W) -> 0 <= W <= p30 ->
+  r_seq_number r = seq_norm (tcp_window_start s - k) -> 0 <= k <= p30 ->
+  0 < l_len (r_payload r) <= p30 ->
+  (r_control r = CNone \/ r_control r = CPsh) ->
+  r_ack_number r = Some (s_local_seq_no s) ->
+  0 <= s_local_seq_no s < 4294967296 -> 0 <= rb_len (s_tx_buffer s) < 2147483648 ->
+  tcp_process cx s ip r = Ok (s', rep, tags) ->
+  s_remote_seq_no s' = s_remote_seq_no s /\ s_state s' = Established /\
+  s_rx_fin_received s' = s_rx_fin_received s /\
+  ((exists p, rep = Some p /\ pure_ack_of s' (Some p) /\
+              rb_len (s_rx_buffer s) <= rb_len (s_rx_buffer s'))
+   \/ (rep = None /\ s_remote_last_ack s' = s_remote_last_ack s /\
+       exists m, 1 <= m /\ rb_len (s_rx_buffer s') = rb_len (s_rx_buffer s) + m)).
+Proof.
+  intros Hst Hrw Hwe HW Hseq Hk Hlen Hctl Hack Hu Htx H.
+  pose proof H as H0.
+  unfold tcp_process in H.
+  destruct (negb (tcp_accepts s ip r)); [discriminate|].
+  rewrite (ack_check_una cx s ip r Hst Hctl Hack Hu Htx) in H. cbn [obind] in H.
+  apply obind_ok_inv in H. destruct H as (p2 & H2 & H).
+  set (WS := s_remote_seq_no s + rb_len (s_rx_buffer s)) in *.
+  assert (Ews : tcp_window_start s = seq_norm WS) by (unfold tcp_window_start, WS; apply seq_add_as_norm).
+  assert (Ewe : tcp_window_end s = seq_norm (WS + W)).
+  { rewrite Hwe, Ews. rewrite <- seq_add_as_norm. apply seq_add_norm. }
+  assert (Esq : r_seq_number r = seq_norm (WS + - k)).
+  { rewrite Hseq, Ews. replace (WS + - k) with (WS - k) by lia.
+    rewrite <- (seq_subn_norm WS k). unfold seq_subn, seq_norm. reflexivity. }
+  assert (Hsynced : match s_state s with Listen | SynSent => False | _ => True end) by (rewrite Hst; exact I).
+  assert (Hd : -2147483648 <= - k < 2147483648) by (unfold p30 in *; lia).
+  pose proof (process_window_spec cx s ip r WS W (- k) Ews Ewe Esq HW ltac:(lia) Hd Hsynced) as P2.
+  cbv zeta in P2. rewrite H2 in P2.
+  destruct p2 as [t2 ((s2, payload), off)|t2 s2r rep2].
+  2:{ (* not acceptable: an ACK at once (the payload is not empty) *)
+      inversion H; subst s' rep tags; clear H.
+      unfold tcp_process_window in H2. rewrite Hst in H2.
+      destruct (tcp_segment_in_window _ _ _ _) as (inw, tg).
+      destruct inw.
+      { destruct (negb (seq_le _ _)); [discriminate|].
+        repeat match type of H2 with
+               | (do _ <- ?m; _) = _ => destruct m; cbn [obind] in H2; try discriminate
+               end. }
+      assert (Hnr : control_eqb (r_control r) CRst = false) by (destruct Hctl as [-> | ->]; reflexivity).
+      rewrite Hnr in H2. cbn [tcp_state_eqb] in H2.
+      assert (Hpl : (match r_payload r with [] => false | _ => true end) = true).
+      { destruct (r_payload r); [cbn in Hlen; lia | reflexivity]. }
+      assert (Hc : (match r_control r with CNone | CPsh | CFin => true | _ => false end) = true)
+        by (destruct Hctl as [-> | ->]; reflexivity).
+      rewrite Hpl, Hc in H2. cbn [andb] in H2.
+      destruct (tcp_ack_reply cx s ip r) as (s1, p) eqn:Har.
+      inversion H2; subst s2r rep2; clear H2.
+      destruct (ack_reply_rcv _ _ _ _ _ _ Har) as (Hp & (R1 & R2 & R3 & R4 & R5)).
+      split; [exact R2|]. split; [congruence|]. split; [exact R3|].
+      left. exists p. split; [reflexivity|]. split; [exact Hp | rewrite R1; lia]. }
+  destruct P2 as (Hin & -> & -> & ->).
+  (* in the window: the part at and after RCV.NXT is not empty and lands at offset 0 *)
+  unfold trim_off, trim_lo, trim_len in *.
+  replace (Z.max 0 (- k)) with 0 in * by lia. replace (Z.max 0 (- - k)) with k in * by lia.
+  rewrite Z.sub_0_r in *.
+  set (n := Z.min W (- k + l_len (r_payload r))) in *.
+  assert (Hn : 0 < n <= l_len (r_payload r) - k).
+  { unfold n. unfold in_window_Z in Hin. unfold p30 in *. lia. }
+  set (s2 := upd_local_rx_last_seq s (Some (r_seq_number r))) in *.
+  assert (F2 : frame s2 s) by (unfold s2; frame_solve).
+  apply obind_ok_inv in H. destruct H as (((al & aof) & aall) & _ & H).
+  assert (Hq : tcp_process_quash s2 r = CNone).
+  { unfold tcp_process_quash. destruct Hctl as [-> | ->]; reflexivity. }
+  rewrite Hq in H.
+  assert (Hst2 : s_state s2 = Established) by (unfold s2; rproj; exact Hst).
+  unfold tcp_process_transition in H. rewrite Hst2 in H. cbn [obind] in H.
+  apply obind_ok_inv in H. destruct H as ((s4 & wu) & H4 & H).
+  pose proof (update_remote_frame _ _ _ _ _ _ H4) as F4.
+  apply obind_ok_inv in H. destruct H as ((s5 & t5) & H5 & H).
+  pose proof (dup_ack_frame _ _ _ _ _ _ _ H5) as F5.
+  pose proof (tsval_frame s5 r) as F5'.
+  set (q5 := match r_timestamp r with
+             | Some (tsval, _) => upd_last_remote_tsval s5 tsval
+             | None => s5
+             end) in *. clearbody q5.
+  pose proof (timers_frame cx q5 al aall) as F6.
+  destruct (tcp_process_timers cx q5 al aall) as (s6, t6). cbn [fst] in F6.
+  pose proof (zwp_frame cx s6 al) as F7.
+  destruct (tcp_process_zwp cx s6 al) as (s7, t7). cbn [fst] in F7.
+  apply obind_ok_inv in H. destruct H as (((s8 & rep8) & t8) & H8 & H).
+  inversion H; subst s' rep tags; clear H.
+  assert (F : frame s7 s).
+  { eapply frame_trans; [exact F7|]. eapply frame_trans; [exact F6|]. eapply frame_trans; [exact F5'|].
+    eapply frame_trans; [exact F5|]. eapply frame_trans; [exact F4 | exact F2]. }
+  destruct F as ((E1 & E2 & E3 & E4 & E5 & E6 & E7) & Est).
+  assert (Hpl : l_len (l_slice k n (r_payload r)) = n).
+  { rewrite l_slice_spec, firstn_len_Z by lia. rewrite skipn_len_Z by lia. lia. }
+  destruct (rcv_wf_view _ _ E1 Hrw) as (Hw7a & Hw7b).
+  assert (Hpl0 : 0 < l_len (l_slice k n (r_payload r))) by lia.
+  destruct (payload_in_order cx s7 ip r (l_slice k n (r_payload r)) s8 rep8 t8 Hw7a Hw7b Hpl0 H8)
+    as (m & Hm & L & C & Sq & St & Fi & Sh & Hack8).
+  split; [congruence|]. split; [congruence|]. split; [congruence|].
+  destruct Hack8 as [(p & -> & A1 & A2 & A3 & A4) | (-> & Ha & _)].
+  - left. exists p. split; [reflexivity|]. split; [unfold pure_ack_of; auto|]. rewrite L, E2. lia.
+  - right. split; [reflexivity|]. split; [congruence|]. exists m. split; [lia|]. rewrite L, E2. reflexivity.
+Qed.
+
+(* ---------------------------------------------------------------------------------------- *)
+(* poll_at while an ACK is owed                                                              *)
+(* ---------------------------------------------------------------------------------------- *)
+Lemma poll_at_min_r_le a t0 :
+  match poll_at_min a (PTime t0) with PNow => True | PTime t => t <= t0 | PIngress => False end.
+Proof. destruct a as [|x|]; cbn; try exact I; try lia. destruct (Z.leb_spec x t0); cbn; lia. Qed.
+
+Lemma poll_at_min_r_now a : poll_at_min a PNow = PNow.
+Proof. destruct a; reflexivity. Qed.
+
+(* an owed ACK shows in poll_at: Now, or an instant not later than the delayed-ACK deadline *)
+Theorem poll_at_owed cx s :
+  s_tuple s <> None -> tcp_ack_to_transmit s = true ->
+  match tcp_poll_at cx s with
+  | Ok PNow => True
+  | Ok (PTime t) => exists t0, s_ack_delay_timer s = ADWaiting t0 /\ t <= t0
+  | Ok PIngress => False
+  | _ => True
+  end.
+Proof.
+  intros Htu Hack. unfold tcp_poll_at.
+  destruct (s_tuple s); [|congruence]. cbn [is_some negb].
+  destruct (is_some (s_remote_last_ts s)); cbn [negb]; [|exact I].
+  destruct (tcp_state_eqb (s_state s) Closed); [exact I|].
+  destruct (tcp_seq_to_transmit cx s) as [[|]|e|]; cbn [obind]; try exact I.
+  destruct (tcp_window_to_update s) as [[|]|e|]; cbn [obind]; try exact I.
+  rewrite Hack. cbn [negb].
+  destruct (s_ack_delay_timer s) as [|t0|].
+  - rewrite poll_at_min_r_now. exact I.
+  - match goal with |- context [poll_at_min ?a (PTime t0)] =>
+      pose proof (poll_at_min_r_le a t0) as Hle; destruct (poll_at_min a (PTime t0)) end;
+      try tauto. exists t0. split; [reflexivity | exact Hle].
+  - rewrite poll_at_min_r_now. exact I.
+Qed.
